@@ -35,7 +35,8 @@ func c08DagText(h *bdHome, self, marker string, sh c08Shape) string {
 	var b strings.Builder
 	b.WriteString("schedule: \"* * * * *\"\n")
 	if sh.Handler {
-		fmt.Fprintf(&b, "handlerOn:\n  exit:\n    command: %s\n", yq(fmt.Sprintf("%s c16step %s onexit 30", self, marker)))
+		fmt.Fprintf(&b, "handlerOn:\n  success:\n    command: %s\n  exit:\n    command: %s\n",
+			yq(fmt.Sprintf("%s c16step %s onsuccess 30", self, marker)), yq(fmt.Sprintf("%s c16step %s onexit 30", self, marker)))
 	}
 	b.WriteString("steps:\n")
 	for i := 1; i <= sh.Steps; i++ {
@@ -64,7 +65,7 @@ func c08CrashBody(c *core.Ctx) {
 		return
 	}
 	self, _ := os.Executable()
-	shapes := []c08Shape{{"3-steps+exit-handler", 3, true, false, false}}
+	shapes := []c08Shape{{"3-steps+success-and-exit-handlers", 3, true, false, false}}
 	if !c.Quick() {
 		shapes = append(shapes, c08Shape{"2-steps", 2, false, false, false}, c08Shape{"retry+handler", 2, true, true, false}, c08Shape{"output-variable", 2, true, false, true}, c08Shape{"1-step", 1, false, false, false})
 	}
@@ -161,7 +162,7 @@ func c08CrashTrial(c *core.Ctx, idx int, self string, sh c08Shape, k int, tear f
 			allRan = false
 		}
 	}
-	if sh.Handler && !ended["onexit"] {
+	if sh.Handler && !(ended["onexit"] && ended["onsuccess"]) {
 		allRan = false
 	}
 	desc["steps_completed_before_the_kill"] = len(ended)
@@ -238,7 +239,7 @@ func c08CrashTrial(c *core.Ctx, idx int, self string, sh c08Shape, k int, tear f
 	}
 	want := sh.Steps
 	if sh.Handler {
-		want++
+		want += 2
 	}
 	if to || code != 0 || len(ended2) != want {
 		c.Violate(idx, "crash-cannot-restart|"+label, fmt.Sprintf("after the kill a new start exits with status %d (timed out: %v) and completed %d of %d steps/handlers: %s", code, to, len(ended2), want, clip(out, 300)), desc)
